@@ -83,6 +83,8 @@ class Ctx:
 
     def enum(self, func, cls=None, resolver=None, may_raise=None, max_depth=3, consts=None, fnbinds=None,
              max_paths=200000, default_kwargs=False):
+        if resolver is None and max_depth == 0 and func.qn == 'pymodbus.transaction.ModbusTransactionManager.execute':
+            resolver, max_depth = self.tx_helper_resolver(), 2
         pe = PathEnum(self.idx, resolver or SelfResolver(self.idx), may_raise, max_depth=max_depth,
                       hier=self.hier, max_paths=max_paths)
         pe.consteval = self._consteval_hook
@@ -97,9 +99,29 @@ class Ctx:
         v = self.ce.try_ev(node, f.mod, getattr(frame, 'cls', None), default=_UNKNOWN)
         return v if isinstance(v, int) and not isinstance(v, bool) else _UNKNOWN
 
+    TX_MODELLED = ('_transact', '_send', '_recv', '_calculate_response_length', '_calculate_exception_length', 'getNextTID', 'addTransaction',
+                   'getTransaction', 'delTransaction', 'reset', 'execute')
+
+    def tx_helper_resolver(self):
+        """private helper methods of the transaction manager that are not modelled on their own (a prologue / epilogue factored
+        out of execute()) are part of execute(): they are inlined; everything else stays a call event"""
+        def stop(fn):
+            return fn.cls is None or not fn.qn.startswith('pymodbus.transaction.') or fn.name in self.TX_MODELLED or not fn.name.startswith('_') \
+                or fn.name.startswith('__')
+        base = SelfResolver(self.idx, stop=stop)
+
+        def res(call, fr, path):
+            f = call.func
+            if isinstance(f, ast.Attribute) and isinstance(f.value, ast.Name) and f.value.id == 'self':
+                return base(call, fr, path)
+            return None
+        return res
+
     def enum_region(self, func, cls, stmts=None, stop=(), resolver=None, may_raise=None, max_depth=0, consts=None):
         """enumerate a region of func: `stmts` (a statement list inside func; default the whole body),
         stopping at the statements in `stop`"""
+        if resolver is None and max_depth == 0 and func.qn == 'pymodbus.transaction.ModbusTransactionManager.execute':
+            resolver, max_depth = self.tx_helper_resolver(), 2
         pe = PathEnum(self.idx, resolver or SelfResolver(self.idx), may_raise, max_depth=max_depth, hier=self.hier)
         pe.consteval = self._consteval_hook
         pe.stop_nodes = set(stop)
